@@ -270,7 +270,7 @@ def sample_view(case):
 
 
 def kf2_class(src, op):
-    """input class of KF-C08-2: variable features + a filter that moves or adds anchors (only the inplace comparison is affected)"""
+    """input class of the fixed finding KF-C08-2: variable features + a filter that moves or adds anchors (counted, not excluded)"""
     if not op["fn"].startswith("compileVariable") or op["opts"].get("variableFeatures") is False:
         return False
     names = [f.get("name", "") for f in src.get("lib", {}).get("com.github.googlei18n.ufo2ft.filters", [])] + list(op["opts"].get("filters", []))
@@ -320,9 +320,8 @@ def run_case(case, ctx):
                "disk-other-reader": ("disk:" + module, other), "inplace": ("inplace", module)}
     chosen = [configs[case["config"]]] if case.get("config") in configs else ([] if case.get("config") else list(configs.values()))
     for mode, mod in chosen:
-        if mode == "inplace" and kf2_class(src, op0) and not case.get("no_exclusions"):
-            ctx.label("known-finding-class(KF-C08-2)")
-            continue
+        if mode == "inplace" and kf2_class(src, op0):
+            ctx.label("fixed-finding-class(KF-C08-2)")  # no longer excluded: the finding is repaired
         try:
             got = compile_fresh(source, mod, op0, mode)
         except Rejected as e:
